@@ -10,6 +10,7 @@ import (
 	"fmt"
 	"sort"
 	"strings"
+	"sync"
 	"testing"
 	"time"
 
@@ -108,8 +109,14 @@ func vmust(err error) {
 
 var vFalse = false
 
+var openMu sync.Mutex
+
 // open opens a group without pub-sub replication (entries arrive only through deliver).
 func (d *vDevice) open(g *protocoltypes.Group) *GroupContext {
+	// several mock nodes live in one harness process; opening stores registers CBOR types in a process-wide table
+	// of a dependency, which is not safe when two nodes do it at the same moment: one open at a time
+	openMu.Lock()
+	defer openMu.Unlock()
 	gc, err := d.odb.OpenGroup(d.w.ctx, g, &orbitdb.CreateDBOptions{Replicate: &vFalse})
 	vmust(err)
 	return gc
@@ -271,4 +278,22 @@ func metaStateOwn(ms *MetadataStore) string {
 	}
 	sort.Strings(out)
 	return fmt.Sprint(out)
+}
+
+// waitOwnAnnouncement waits until an activated group context has published the chain-key announcement for its own
+// member (what it does, asynchronously, after it has seen its own device entry): from then on the service appends
+// nothing more to the metadata log on its own. Gives up silently after a minute (the caller's comparison then says
+// what is wrong).
+func waitOwnAnnouncement(gc *GroupContext) {
+	idx, ok := gc.MetadataStore().Index().(*metadataStoreIndex)
+	if !ok {
+		return
+	}
+	deadline := time.Now().Add(60 * time.Second)
+	for time.Now().Before(deadline) {
+		if sent, err := idx.areSecretsAlreadySent(gc.MemberPubKey()); err == nil && sent {
+			return
+		}
+		time.Sleep(3 * time.Millisecond)
+	}
 }
